@@ -345,6 +345,11 @@ MUTANTS += [
     ("c19-lu-log-prod-method", ["C19"], [(LU, "        return torch.sum(torch.log(self.upper_diag))", "        return self.upper_diag.prod().log()")], "NUM-LOGSPACE"),
 ]
 
+MUTANTS += [
+    ("c10-cached-forward-no-transpose", ["C10"], [(LIN, "            outputs = F.linear(inputs, self.cache.weight, self.bias)", "            outputs = inputs @ self.cache.weight + self.bias")], "CACHE-USE"),
+    ("c10-cached-inverse-bias-scaled", ["C10"], [(LIN, "            outputs = F.linear(inputs - self.bias, self.cache.inverse)", "            outputs = F.linear(inputs, self.cache.inverse, -self.bias)")], "CACHE-USE"),
+]
+
 # ---- C11 LIN-WORD / LIN-LOGDET on the matrix-word algebra ----
 MUTANTS += [
     ("c11w-lu-weight-order", ["C11"], [(LU, "        return lower @ upper", "        return upper @ lower")], "LIN-WORD"),
@@ -392,6 +397,8 @@ MUTANTS += [
 ]
 
 BENIGN = [
+    ("b-c10-cached-forward-matmul", ["C10", "C13", "C19"], [(LIN, "            outputs = F.linear(inputs, self.cache.weight, self.bias)", "            outputs = inputs @ self.cache.weight.t() + self.bias")]),
+    ("b-c10-cached-inverse-matmul", ["C10", "C13"], [(LIN, "            outputs = F.linear(inputs - self.bias, self.cache.inverse)", "            outputs = torch.matmul(inputs - self.bias, self.cache.inverse.t())")]),
     ("b-c04-inline-embedding", ["C04", "C03", "C13"], [(FB, "        embedded_context = self._embedding_net(context)\n        noise, logabsdet = self._transform(inputs, context=embedded_context)\n        if self._context_used_in_base:\n            log_prob = self._distribution.log_prob(noise, context=embedded_context)", "        noise, logabsdet = self._transform(inputs, context=self._embedding_net(context))\n        if self._context_used_in_base:\n            log_prob = self._distribution.log_prob(noise, context=self._embedding_net(context))")]),
     ("b-c08-modulelist-list", ["C08", "C15"], [(TB, "        self._transforms = nn.ModuleList(transforms)", "        self._transforms = nn.ModuleList(list(transforms))")]),
     ("b-c08-modulelist-comprehension", ["C08", "C15"], [(TB, "        self._transforms = nn.ModuleList(transforms)", "        self._transforms = nn.ModuleList([t for t in transforms])")]),
